@@ -12,6 +12,7 @@ func init() {
 		ruleTupleIdentity(e, r)
 		ruleUserIdentityByParts(e, r)
 		ruleRowsErrConsulted(e, r)
+		ruleIteratorHeadNextAgree(e, r)
 		ruleConditionsPredicateUniform(e, r)
 		ruleTypePrefixDelimited(e, r)
 		r.Rule("sibling-sql-read", "mysql and postgres (same schema) build the same predicates for each tuple read", 4)
@@ -24,6 +25,7 @@ func init() {
 		ruleDeletedStoresHidden(e, r)
 		ruleMemoryStoreKeyed(e, r)
 		ruleLockset(e, r, func(p string) bool { return p == "pkg/storage/memory" }, "memory-state-guarded", 20)
+		ruleRawDisjunctionParenthesised(e, r)
 	})
 }
 
@@ -153,6 +155,7 @@ func init() {
 		rulePagingSQL(e, r)
 		ruleMemorySortLast(e, r)
 		ruleTokenHandling(e, r)
+		ruleModelIDListDistinct(e, r)
 	})
 	describe("C14", meta{
 		Decides:    "(1) in every paginated SQL statement of sqlite/mysql/postgres the continuation token is compared with the ORDER BY column in the matching direction, inclusive comparison is paired with LIMIT pageSize+1 and exclusive with LIMIT pageSize, and the three backends agree per method; (2) the memory backend sorts the complete filtered list before the offset token is applied; (3) every paging command queries the backend only after Encoder.Decode succeeded, with a position derived from the decoded token, and ReadChanges reaches the backend with a token only when the token's type equals the requested type.",
@@ -172,6 +175,7 @@ func init() {
 		ruleBufferDroppedOnError(e, r)
 		ruleElisionAgreement(e, r)
 		ruleSharedFillContext(e, r)
+		ruleNoLossAfterConsume(e, r)
 	})
 	describe("C09", meta{
 		Decides:    "(1) every call of a function that stores an iterator cache entry lies behind errors.Is(err, storage.ErrIteratorDone) on the underlying iterator, and the stored entry's LastModified is the query start time kept in the iterator; (2) in both caching iterators' Next a non-done, non-cancelled error drops the buffer; (3) every field written into a cached record is read back by the rebuild function and every elided field is restored from the iterator's own value (v1 TupleRecord and v2 MinimalCacheEntry); (4) the shared iterator fills its shared buffer under context.Background(); plus key completeness (C24) and higher-consistency bypass (C10) for the iterator caches.",
@@ -197,6 +201,7 @@ func init() {
 func init() {
 	register("C07", "BatchCheck is equivalent to individual Checks", func(e *Engine, r *Reporter) {
 		ruleBatchCheck(e, r)
+		ruleSwappedWiring(e, r, []string{"pkg/server"}, 20)
 	})
 	describe("C07", meta{
 		Decides:    "(1) every BatchCheckItem field forwarded to the per-item Check (tuple key with all three components, contextual tuples, context) and the request-level store and model are read by the de-duplication key, and the contextual tuples actually reach InvariantCacheKey's variadic parameter; (2) the per-item closures never return a non-nil error to the cancel-on-error pool and store an outcome on every path.",
@@ -281,6 +286,7 @@ func init() {
 func init() {
 	register("C11", "The cache controller bounds staleness after writes", func(e *Engine, r *Reporter) {
 		ruleInvalidationWiring(e, r)
+		ruleSwappedWiring(e, r, []string{"internal/shared", "internal/cachecontroller", "pkg/server", "pkg/storage/storagewrappers", "cmd"}, 20)
 	})
 	describe("C11", meta{
 		Decides:    "mechanism wiring only: (1) each of the three invalidation marker keys is written by the controller and consulted by both iterator caches; (2) an iterator cache hit is returned only behind the comparison of the entry's LastModified with the store-wide and every per-entity marker; (3) in the controller the no-new-changes shortcut compares with the cached LastModified, a failed changelog read invalidates the store, each partial change writes both marker kinds, the stored entry records the newest change time; (4) the query cache's validity time comes from DetermineInvalidationTime of the request's store (and clones keep it, C01 clone rule).",
